@@ -82,7 +82,7 @@ func checkC09(c *Ctx) {
 	r.Rule("R09.1", "nobody retains the caller's key slice", 15)
 	r.Rule("R09.2", "stored keys are private copies (every Write)", 3)
 	r.Rule("R09.3", "hash lookups are confirmed by the full key before the entry is used or deleted", 4)
-	r.Rule("R09.4", "Failover's per-key build locks are keyed by string(key) (not by a hash: colliding keys must not share a build)", 2)
+	r.Rule("R09.4", "Failover's per-key build locks are keyed by string(key) (not by a hash: colliding keys must not share a build)", 1)
 	r.NotDecided = []string{"xxhash collisions themselves", "user backends / loggers keeping the slice"}
 	c.c09Retention()
 	for _, b := range backends {
